@@ -222,7 +222,7 @@ fn empty_script() -> Script {
     Script(zcash_script::script::Code(Vec::new()))
 }
 
-//@ {"p":"C07","tier":"quick","clause":"fully transparent transaction, one P2PKH input and TWO P2PKH-sized outputs, transparent change allowed: on Ok inputs == outputs + change + fee; the fee equals the ZIP 317 fee of the FINAL shape - 15000 when a (third) change output is emitted, 10000 when there is none; change is a single transparent output, never zero-valued; InsufficientFunds is honest","bounds":"1 transparent input, 2 transparent outputs, every value in [0, MAX_MONEY]; dust policy symbolic; TransparentChangePolicy::TransparentChangeAllowed; target/anchor heights symbolic","covers":3,"t":3600,"unwind":5}
+//@ {"p":"C07","tier":"experimental","why_experimental":"CBMC exceeds 34 GB (out of memory) before deciding","clause":"fully transparent transaction, one P2PKH input and TWO P2PKH-sized outputs, transparent change allowed: on Ok inputs == outputs + change + fee; the fee equals the ZIP 317 fee of the FINAL shape - 15000 when a (third) change output is emitted, 10000 when there is none; change is a single transparent output, never zero-valued; InsufficientFunds is honest","bounds":"1 transparent input, 2 transparent outputs, every value in [0, MAX_MONEY]; dust policy symbolic; TransparentChangePolicy::TransparentChangeAllowed; target/anchor heights symbolic","covers":3,"t":3600,"unwind":5}
 #[kani::proof]
 #[kani::unwind(5)]
 fn c07_balance_transparent_1x2() {
